@@ -329,6 +329,21 @@ elif what == "history":
     energies("hist.reused_atoms", scf)
     bits("hist.reused_atoms.f", np.asarray(scf.atoms.occ.f))
     bits("hist.reused_atoms.user_object_f", np.asarray(cell.occ.f))
+    # an SCF OBJECT used for another geometry before (prelude) or created for the target geometry: nothing of the earlier geometry (stored energies,
+    # potentials, orbitals) enters the second calculation
+    def h2(d):
+        return Atoms(["H", "H"], [[0.0, 0.0, 0.0], [0.0, 0.0, d]], ecut=4, a=7)
+
+    if args.get("prelude"):
+        scf = SCF(h2(1.4), opt={"pccg": 4}, etol=1e-12, guess="pseudo")
+        scf.run()
+        scf.atoms = h2(1.8)
+        scf.W = None
+        scf.is_converged = False
+    else:
+        scf = SCF(h2(1.8), opt={"pccg": 4}, etol=1e-12, guess="pseudo")
+    scf.run()
+    energies("hist.reused_scf_object", scf)
     bits("hist.pseudo_uniform", pseudo_uniform((2, 7, 3), seed=1234))
     bits("hist.guess_pseudo", np.concatenate([np.asarray(w).ravel() for w in guess_pseudo(scf, seed=7)]))
     bits("hist.guess_random", np.concatenate([np.asarray(w).ravel() for w in guess_random(scf, seed=7)]))
